@@ -262,6 +262,19 @@ impl M {
                 self.ksfs.insert(gs(c, "id")?.to_string(), k);
                 okv(json!({"desc": d}))
             }
+            "ksf_ref" => {
+                let input = ghex(c, "input")?;
+                let len = c["len"].as_u64().unwrap_or(input.len() as u64) as usize;
+                let k = match c.get("ksf").and_then(|v| v.as_str()) {
+                    Some(n) => self.ksfs.get(n).ok_or("no such ksf")?,
+                    None => return Err("ksf_ref needs a ksf name".into()),
+                };
+                match k.reference(&input, len) {
+                    None => json!({"ok": false, "err": "no-reference"}),
+                    Some(Ok(v)) => okv(json!({"out": hexs(&v)})),
+                    Some(Err(e)) => json!({"ok": false, "err": e}),
+                }
+            }
             "ksf_fail" => {
                 let at = c["at"].as_u64();
                 KSF_FAIL.with(|f| *f.borrow_mut() = at);
